@@ -328,3 +328,127 @@ def to_trace(scn, evs, hung):
             if f[0] in ("raise", "kill"):
                 faults.append({"w": int(w) + 1, "n": int(k), "kind": f[0], "typ": f[1] if f[0] == "raise" else ""})
     return {"cfg": {"NW": scn["NW"], "L": scn["L"], "faults": faults}, "ev": out}
+
+
+# =============================================================================================== C12
+def _shape_ok(kind, dtype, obs, nw):
+    sp = obs_space(kind, np.dtype(dtype))
+
+    def ok(arr, sub):
+        arr = np.asarray(arr)
+        return arr.shape == (nw, *sub.shape) and arr.dtype == sub.dtype
+    try:
+        if kind in ("vector", "image"):
+            return ok(obs, sp)
+        if kind == "dict":
+            return all(ok(obs[k], sp.spaces[k]) for k in sp.spaces)
+        return all(ok(obs[j], sp.spaces[j]) for j in range(len(sp.spaces)))
+    except Exception:
+        return False
+
+
+def _row(kind, obs, i):
+    if kind in ("vector", "image"):
+        return obs[i]
+    if kind == "dict":
+        return {k: v[i] for k, v in obs.items()}
+    return tuple(v[i] for v in obs)
+
+
+def _intval(x):
+    x = float(np.asarray(x).reshape(-1)[0])
+    return int(x) if x == int(x) else -999
+
+
+def run_data(cfg, ops, seed=0):
+    """cfg: NW, A, L, leave, endk, kind, dtype, copy, continuous, mode; ops: ("reset",) | ("step", actions[NW][A]).
+    Returns a trace for VecData_Trace."""
+    import warnings
+    warnings.filterwarnings("ignore")
+    import gymnasium
+    gymnasium.logger.min_level = 50
+    NW, A, kind, dtype = cfg["NW"], cfg["A"], cfg["kind"], cfg["dtype"]
+    agents = [f"agent_{a}" for a in range(A)]
+    mk = [env_fn(idx=i, n_agents=A, L=cfg["L"][i], leave={a: cfg["leave"][i][a] for a in range(A) if cfg["leave"][i][a]},
+                 end=cfg["endk"][i], kind=kind, dtype=dtype, continuous=cfg.get("continuous", False)) for i in range(NW)]
+    mode = cfg["mode"]
+    env = None
+    ev = []
+    handed = []          # (obs dict, decoded ids) returned earlier
+    try:
+        if mode == "vec":
+            from agilerl.vector.pz_async_vec_env import AsyncPettingZooVecEnv
+            env = AsyncPettingZooVecEnv(mk, copy=cfg.get("copy", True))
+        elif mode == "wrapper":
+            from agilerl.wrappers.pettingzoo_wrappers import PettingZooAutoResetParallelWrapper
+            env = PettingZooAutoResetParallelWrapper(mk[0]())
+        else:
+            env = mk[0]()
+        for op in ops:
+            e = {"op": op[0], "exc": "", "shape_ok": True, "prev_ok": True, "out": []}
+            if op[0] == "step":
+                e["actions"] = op[1]
+            try:
+                if mode == "vec":
+                    if op[0] == "reset":
+                        obs, info = env.reset(seed=seed)
+                        rew = term = trunc = None
+                    else:
+                        acts = {ag: (np.array([[float(op[1][i][a])] for i in range(NW)], dtype=np.float32) if cfg.get("continuous")
+                                     else np.array([op[1][i][a] for i in range(NW)])) for a, ag in enumerate(agents)}
+                        obs, rew, term, trunc, info = env.step(acts)
+                    obsd = {ag: obs[ag] for ag in agents}
+                    e["shape_ok"] = all(_shape_ok(kind, dtype, obsd[ag], NW) for ag in agents)
+                    out = []
+                    for i in range(NW):
+                        rowl = []
+                        for a, ag in enumerate(agents):
+                            oid = decode_obs(kind, _row(kind, obsd[ag], i))
+                            tick = -1
+                            try:
+                                if ag in info and "tick" in info[ag] and bool(info[ag]["_tick"][i]):
+                                    tick = int(info[ag]["tick"][i])
+                            except Exception:
+                                tick = -2
+                            rowl.append({"present": True, "obs": -1 if oid is None else oid,
+                                         "rew": 0 if rew is None else _intval(rew[ag][i]),
+                                         "term": False if term is None else bool(term[ag][i]),
+                                         "trunc": False if trunc is None else bool(trunc[ag][i]), "tick": tick})
+                        out.append(rowl)
+                    e["out"] = out
+                    if cfg.get("copy", True):
+                        e["prev_ok"] = all([[decode_obs(kind, _row(kind, o[ag], i)) for ag in agents] for i in range(NW)] == ids
+                                           for o, ids in handed)
+                        handed.append((obsd, [[decode_obs(kind, _row(kind, obsd[ag], i)) for ag in agents] for i in range(NW)]))
+                else:
+                    if op[0] == "reset":
+                        obs, info = env.reset(seed=seed)
+                        rew, term, trunc = {}, {}, {}
+                    else:
+                        live = list(env.agents) if mode == "wrapper" else list(env.agents)
+                        acts = {ag: (np.array([float(op[1][0][a])], dtype=np.float32) if cfg.get("continuous") else op[1][0][a])
+                                for a, ag in enumerate(agents) if ag in live}
+                        obs, rew, term, trunc, info = env.step(acts)
+                        if mode == "ref" and all(term[ag] or trunc[ag] for ag in term):
+                            obs, _ = env.reset()          # what "environment i stepped alone, restarted when done" shows
+                    rowl = []
+                    for a, ag in enumerate(agents):
+                        oid = decode_obs(kind, obs[ag]) if ag in obs else 0
+                        rowl.append({"present": ag in rew or op[0] == "reset", "obs": -1 if oid is None else oid,
+                                     "rew": _intval(rew[ag]) if ag in rew else 0,
+                                     "term": bool(term.get(ag, False)), "trunc": bool(trunc.get(ag, False)),
+                                     "tick": int(info[ag]["tick"]) if ag in info and "tick" in info[ag] else -1})
+                    e["out"] = [rowl]
+            except Exception as ex:
+                e["exc"] = f"{type(ex).__name__}: {ex}"[:200]
+                e["out"] = [[{"present": False, "obs": -1, "rew": 0, "term": False, "trunc": False, "tick": -1} for _ in agents] for _ in range(NW)]
+                ev.append(e)
+                break
+            ev.append(e)
+    finally:
+        try:
+            if mode == "vec" and env is not None:
+                env.close(terminate=True)
+        except Exception:
+            pass
+    return {"cfg": cfg, "ev": ev}
